@@ -62,6 +62,7 @@ PROPS = {
     "C11": {"level": "exploration", "assumptions": SIM_ASSUME + ["the 3 s persist interval is checked for its stated bound with 1.5 s slack on the sandbox clock; a canary timer turns starvation into 'inconclusive'"],
             "parts": [sim("TestC11Sim", q=(300, 4), t=(4000, 16)),
                       {"pkg": "sim", "test": "TestC11Persist", "quick": {"checks": 1, "shards": 1, "shrink": "0s", "timeout": "10m"}, "thorough": {"checks": 4, "shards": 4, "shrink": "0s", "timeout": "1h"}},
+                      {"pkg": "stress", "test": "TestC11Stream", "quick": {"checks": 1, "shards": 1, "shrink": "0s", "timeout": "10m"}, "thorough": {"checks": 4, "shards": 4, "shrink": "0s", "timeout": "1h"}},
                       rp("procs", "TestC11Real", (10, 2), (200, 8), helpers=["cmd/vhelper"]),
                       rp("procs", "TestC11Binary", (8, 2), (80, 8), helpers=["cmd/vhelper", "pkg:github.com/Flowpack/prunner/cmd/prunner"])]},
     "C12": {"level": "exploration", "assumptions": SIM_ASSUME + ["the wall clock of the sandbox: generated job ages stay >=25% away from the retention period boundaries"],
@@ -80,7 +81,7 @@ PROPS = {
     "C14": {"level": "exploration", "assumptions": PURE_ASSUME + ["HMAC-SHA256 is unforgeable; the run's secret never appears in a generated invalid credential unless the harness itself signs with it", "route discovery through the verif-only server.Routes hook + chi.Walk"],
             "parts": [rp("httpauth", "TestC14", (3000, 2), (60000, 8)),
                       rp("httpauth", "TestC14Concurrent", (40, 2), (1500, 8), race=True),
-                      rp("procs", "TestC14Binary", (6, 1), (60, 4), helpers=["cmd/vhelper", "pkg:github.com/Flowpack/prunner/cmd/prunner"]),
+                      rp("procs", "TestC14Binary", (8, 2), (80, 4), helpers=["cmd/vhelper", "pkg:github.com/Flowpack/prunner/cmd/prunner"]),
                       {"pkg": "httpauth", "fuzz": "FuzzC14Credential", "thorough": {"fuzztime": "180s", "wall": 900}}]},
     "C15": {"level": "exploration", "assumptions": SIM_ASSUME, "parts": [sim("TestC15", q=(250, 4), t=(3000, 16))]},
     "C16": {"level": "exploration", "assumptions": SIM_ASSUME + ["the binary part observes a reload through jobs scheduled over HTTP; a reload request (SIGUSR1 / poll) is given 3 s to take effect"],
@@ -97,5 +98,6 @@ PROPS = {
             "parts": [rp("procs", "TestC19", (40, 2), (400, 8), helpers=["cmd/vhelper"]),
                       rp("procs", "TestC19Binary", (4, 1), (80, 4), helpers=["cmd/vhelper", "pkg:github.com/Flowpack/prunner/cmd/prunner"])]},
     "C20": {"level": "exploration", "assumptions": ["/proc is the process table; processes are identified by a per-run marker in argv", "processes that leave their process group (setsid) are outside the statement", "two recorded findings (known_findings.txt) are excluded from the generated trees by construction and exercised separately"],
-            "parts": [rp("procs", "TestC20", (20, 3), (600, 8), helpers=["cmd/vhelper"])]},
+            "parts": [rp("procs", "TestC20", (20, 3), (600, 8), helpers=["cmd/vhelper"]),
+                      rp("procs", "TestC20AtEnd", (10, 2), (300, 8), helpers=["cmd/vhelper"])]},
 }
